@@ -128,6 +128,56 @@ func genFMA(t *rapid.T, specials bool) C03Case {
 		c.Alias = rapid.SampledFrom([]string{"", "", "", "x", "u", "y"}).Draw(t, "alias")
 		return c
 	}
+	if rapid.IntRange(0, 9).Draw(t, "fromadd") == 0 {
+		// the whole corpus of sum and difference cases (decade crossings, ties made by the small addend, far addends,
+		// near-total cancellation, range ends) replayed through FMA: x*y is the first addend exactly (y a power of
+		// ten, or a small factor split off a multiple), u the second one
+		a := genC01op(t, rapid.SampledFrom([]string{"add", "sub"}).Draw(t, "fa.op"))
+		if a.X.F == "f" && a.Y.F == "f" {
+			j := int64(rapid.IntRange(-20, 20).Draw(t, "fa.j"))
+			xs, ys := a.X, h.Spec{F: "f", D: "1", E: j + 1, P: uint(1 + rapid.IntRange(0, 20).Draw(t, "fa.yp")), M: h.GenMode(t, "fa.ym")}
+			xs.E = clampExp(a.X.E - j)
+			if xs.E+j == a.X.E {
+				us := a.Y
+				if a.Op == "sub" {
+					us.Neg = !us.Neg
+				}
+				xs.Hist, us.Hist = "", ""
+				c.X, c.Y, c.U, c.P = xs, ys, us, a.P
+				if rapid.Bool().Draw(t, "fa.swap") {
+					c.X, c.Y = c.Y, c.X
+				}
+				c.Alias = rapid.SampledFrom([]string{"", "", "", "u", "x"}).Draw(t, "alias")
+				return c
+			}
+		}
+	}
+	if rapid.IntRange(0, 9).Draw(t, "chosensum") == 0 {
+		// the exact sum is chosen first - a rounding pattern S at the receiver's precision (tie, just above / below a
+		// tie, all nines, exact) - and u := S - x*y, with a multi-word product placed around or (far) below the rounding
+		// position: u is then as long as the product, with the run of nines or zeros that S - x*y leaves, and whether
+		// the result is S rounded depends on every digit of the product having been used
+		p := rapid.IntRange(1, 60).Draw(t, "cs.p")
+		S := model.MkFinite(rapid.Bool().Draw(t, "cs.neg"), h.GenRoundDigits(t, "cs.s", p), int64(rapid.IntRange(-40, 40).Draw(t, "cs.e")))
+		xd := h.GenDigitsN(t, "cs.x", rapid.IntRange(1, 120).Draw(t, "cs.xn"))
+		yd := h.GenDigitsN(t, "cs.y", rapid.IntRange(1, 120).Draw(t, "cs.yn"))
+		// top of the product relative to the rounding position of S (S.Exp - p): from 3 digits above to 80 below
+		top := S.Exp - int64(p) + int64(rapid.IntRange(-80, 3).Draw(t, "cs.top"))
+		xe := int64(rapid.IntRange(-30, 30).Draw(t, "cs.xe"))
+		xv := model.MkFinite(rapid.Bool().Draw(t, "cs.xneg"), xd, xe)
+		yv := model.MkFinite(rapid.Bool().Draw(t, "cs.yneg"), yd, top-xe)
+		prod := model.MulX(xv, yv).Val
+		uv := model.AddX(S, prod.Negate()).Val
+		if uv.Form == model.Finite {
+			c.X, c.Y, c.U = mk(xv, "x"), mk(yv, "y"), mk(uv, "u")
+			c.P = uint(p)
+			if rapid.IntRange(0, 3).Draw(t, "cs.pshort") == 0 {
+				c.P = uint(rapid.IntRange(1, p).Draw(t, "cs.p2"))
+			}
+			c.Alias = rapid.SampledFrom([]string{"", "", "", "x", "y"}).Draw(t, "alias")
+			return c
+		}
+	}
 	if rapid.IntRange(0, 11).Draw(t, "sparse") == 0 {
 		// decade-crossing cancellation: the product reads 1 000...0 d 000...0 d (several words, mostly zeros) and the
 		// addend is -(999...9) one exponent below: the result's leading digits come from deep inside the product
@@ -458,7 +508,7 @@ func checkFMAZone(c C03Case, o *h.Obs, fused model.Res, nan bool, got h.Snap, al
 	return nil
 }
 
-const ruleC03 = "rapid-generated (x, y, u, precision, mode, aliasing shape): small scope (1-3 digit operands, precision 1-4), massive cancellation u=-(x*y)+delta, products carrying a tie/all-nines pattern at the precision with u one unit far below (single vs double rounding), products with one to three significant digits (often exact powers of ten, 2^i * 5^i) with the addend placed within two digits of the receiver's last digit position and mostly of opposite sign (the sum crosses a decade), sparse multi-word products 1 0..0 d 0..0 d against an addend -(99..9) one exponent below (decade-crossing cancellation that brings deep product digits to the front), zero and infinite operands in every position, product exponent near the range ends, generic word-patterned operands up to 300 (quick) / 4000 (thorough) digits; receiver fresh or aliased to x, y, u, x=y, x=u. Oracle: exact big.Int x*y+u rounded once (value, sign incl. IEEE zero-sum rule, accuracy), ErrNaN exactly for 0*Inf and Inf-Inf. Non-trivial = special operand, aliased receiver, Mul-then-Add would differ, exactly zero sum, or cancellation removing at least half of the product's digits. Cases whose exact product exponent leaves [MinExp,MaxExp] are excluded while the known finding F-03c is listed (counted under excluded_known)."
+const ruleC03 = "rapid-generated (x, y, u, precision, mode, aliasing shape): small scope (1-3 digit operands, precision 1-4), massive cancellation u=-(x*y)+delta, the sum/difference cases of C01 replayed as FMA(x, 10^j, u), chosen exact sums (S a rounding pattern at the precision, u := S - x*y with a multi-word product placed around or up to 80 digits below the rounding position), products carrying a tie/all-nines pattern at the precision with u one unit far below (single vs double rounding), products with one to three significant digits (often exact powers of ten, 2^i * 5^i) with the addend placed within two digits of the receiver's last digit position and mostly of opposite sign (the sum crosses a decade), sparse multi-word products 1 0..0 d 0..0 d against an addend -(99..9) one exponent below (decade-crossing cancellation that brings deep product digits to the front), zero and infinite operands in every position, product exponent near the range ends, generic word-patterned operands up to 300 (quick) / 4000 (thorough) digits; receiver fresh or aliased to x, y, u, x=y, x=u. Oracle: exact big.Int x*y+u rounded once (value, sign incl. IEEE zero-sum rule, accuracy), ErrNaN exactly for 0*Inf and Inf-Inf. Non-trivial = special operand, aliased receiver, Mul-then-Add would differ, exactly zero sum, or cancellation removing at least half of the product's digits. Cases whose exact product exponent leaves [MinExp,MaxExp] are excluded while the known finding F-03c is listed (counted under excluded_known)."
 
 var propC03 = &h.Prop[C03Case]{ID: "C03", Rule: ruleC03, Gen: genC03, Check: checkC03,
 	Matchers: map[string]func(C03Case) bool{"fma-product-exp-out-of-range": func(c C03Case) bool { return !c.Zone && fmaProductOutOfRange(c) }}}
